@@ -243,30 +243,19 @@ Proof.
   intros H. unfold sp_merge. destruct (arg_content a); simpl; auto. now apply N_sadd_NoDup.
 Qed.
 
-(* ConjunctiveGraph._graph: the name it resolves to, and its write *)
-Lemma cg_graph_spec d sp oa :
+(* ConjunctiveGraph._graph: the name it resolves to, and its write (only with
+   [copy], only for a Graph object of another store) *)
+Lemma cg_graph_spec d sp oa copy :
   R d sp ->
-  exists d1, cg_graph d oa = (d1, option_map arg_name oa)
-             /\ R d1 (match oa with Some a => sp_merge sp a | None => sp end).
+  exists d1, cg_graph d oa copy = (d1, option_map arg_name oa)
+             /\ R d1 (if copy then match oa with Some a => sp_merge sp a | None => sp end else sp).
 Proof.
-  intros H. destruct oa as [[c|c|c ts]|]; simpl.
-  - eexists; split; [reflexivity|]. exact H.
+  intros H. assert (Hsame : (if copy then sp else sp) = sp) by (destruct copy; reflexivity).
+  destruct oa as [[c|c|c ts]|]; cbn [cg_graph option_map arg_name].
+  - eexists; split; [reflexivity|]. unfold sp_merge. cbn [arg_content]. now rewrite Hsame.
+  - eexists; split; [reflexivity|]. unfold sp_merge. cbn [arg_content]. rewrite Hsame. now apply R_touch.
   - eexists; split; [reflexivity|].
-    pose proof (R_touch d sp H) as Ht.
-    pose proof (R_iadd c (graph_triples (st (touch_default d)) c) _ _ Ht) as Hi.
-    pose proof Ht as (Eq & _ & _ & Hn & _ & Hk & Hiff & Hkn).
-    unfold sp_merge; simpl.
-    eapply R_spec_equiv; [exact Hi| | |auto|].
-    + rewrite sp_addl_sq. symmetry. apply fold_q_add_noop. intros t Ht'.
-      unfold graph_triples in Ht'. rewrite Eq in Ht'. apply in_q_triples in Ht'. tauto.
-    + symmetry. apply sp_addl_sf.
-    + intros x. rewrite sp_addl_sk. split; auto. intros [Hx|[-> Hne]]; auto.
-      destruct (graph_triples (st (touch_default d)) c) as [|t r] eqn:E; [congruence|].
-      assert (Hin : In t (graph_triples (st (touch_default d)) c)) by (rewrite E; simpl; auto).
-      unfold graph_triples in Hin. rewrite Eq in Hin. apply in_q_triples in Hin.
-      apply Hiff. right. apply (Hkn t). tauto.
-  - eexists; split; [reflexivity|].
-    pose proof (R_touch d sp H) as Ht.
+    pose proof (R_touch d sp H) as Ht. destruct copy; [|exact Ht].
     pose proof (R_iadd c ts _ _ Ht) as Hi.
     pose proof Ht as (Eq & _ & _ & Hn & _ & Hk & Hiff & Hkn).
     unfold sp_merge; simpl. destruct ts as [|t r]; [simpl in *; now rewrite set_st_id in Hi|].
@@ -277,7 +266,7 @@ Proof.
     + intros x. rewrite sp_addl_sk. simpl. rewrite N_sadd_In. split.
       * intros [Hx|Hx]; auto. right. split; auto. discriminate.
       * intros [Hx|[Hx _]]; auto.
-  - eexists; split; [reflexivity|]. exact H.
+  - eexists; split; [reflexivity|]. now rewrite Hsame.
 Qed.
 
 Definition spoc_ctx (ca : ctxarg) (dflt : bool) : option cid :=
@@ -289,17 +278,21 @@ Definition spoc_ctx (ca : ctxarg) (dflt : bool) : option cid :=
                 end
   end.
 
+(* _spoc: with default=True (add) a Graph object is merged, otherwise nothing is written *)
 Lemma cg_spoc_spec d sp ca dflt :
   R d sp ->
-  exists d1, cg_spoc d ca dflt = (d1, spoc_ctx ca dflt) /\ R d1 (fst (sp_target sp ca))
-             /\ snd (sp_target sp ca) = spoc_ctx ca false.
+  exists d1, cg_spoc d ca dflt = (d1, spoc_ctx ca dflt)
+             /\ R d1 (if dflt then fst (sp_target sp ca) else sp).
 Proof.
-  intros H. destruct ca as [|oa]; simpl.
-  - eexists; split; [reflexivity|]. auto.
-  - destruct (cg_graph_spec d sp oa H) as (d1 & E & HR). rewrite E. exists d1. split; auto.
-    destruct oa; simpl; auto.
-    destruct oa; simpl; auto.
+  intros H. destruct ca as [|oa]; cbn [cg_spoc spoc_ctx sp_target].
+  - eexists; split; [reflexivity|]. destruct dflt; auto.
+  - destruct (cg_graph_spec d sp oa dflt H) as (d1 & E & HR). rewrite E. exists d1. split.
+    + destruct oa; reflexivity.
+    + destruct dflt; auto. destruct oa; auto.
 Qed.
+
+Lemma spoc_ctx_false ca : spoc_ctx ca false = eff_graph ca None.
+Proof. destruct ca as [|[a|]]; reflexivity. Qed.
 
 (* ------------------------------------------------------------------ *)
 (* reads return exactly what the mapping prescribes *)
@@ -331,41 +324,25 @@ Proof.
   unfold du_dispatch, sp_triples. destruct du, g as [c|]; simpl; auto. destruct (c =? 0); auto.
 Qed.
 
-Definition no_foreign (oa : option garg) : bool :=
-  match oa with Some a => negb (foreign a) | None => true end.
-
-Lemma sp_merge_nf sp a : foreign a = false -> sp_merge sp a = sp.
-Proof. destruct a; simpl; auto; discriminate. Qed.
-
 Lemma cg_graph_read d sp oa :
-  R d sp -> no_foreign oa = true ->
-  exists d1, cg_graph d oa = (d1, option_map arg_name oa) /\ R d1 sp.
-Proof.
-  intros H Hnf. destruct (cg_graph_spec d sp oa H) as (d1 & E & HR). exists d1. split; auto.
-  destruct oa as [a|]; auto. rewrite sp_merge_nf in HR; auto. simpl in Hnf. now apply negb_true_iff.
-Qed.
+  R d sp -> exists d1, cg_graph d oa false = (d1, option_map arg_name oa) /\ R d1 sp.
+Proof. intros H. exact (cg_graph_spec d sp oa false H). Qed.
 
 Lemma cg_spoc_read d sp ca :
-  R d sp -> ca_foreign ca = false ->
-  exists d1, cg_spoc d ca false = (d1, eff_graph ca None) /\ R d1 sp.
+  R d sp -> exists d1, cg_spoc d ca false = (d1, eff_graph ca None) /\ R d1 sp.
 Proof.
-  intros H Hnf. destruct ca as [|oa]; simpl.
-  - eexists; split; [reflexivity|auto].
-  - destruct (cg_graph_read d sp oa H) as (d1 & E & HR).
-    + destruct oa; simpl in *; auto. now rewrite Hnf.
-    + exists d1. rewrite E. split; auto. destruct oa; reflexivity.
+  intros H. destruct (cg_spoc_spec d sp ca false H) as (d1 & E & HR). exists d1.
+  now rewrite <- spoc_ctx_false.
 Qed.
 
 Lemma cg_triples_spec d sp p ca kw du :
-  R d sp -> ca_foreign ca = false -> no_foreign kw = true ->
+  R d sp ->
   exists d1, cg_triples d p ca kw du = (d1, sp_triples sp p (eff_graph ca kw) du) /\ R d1 sp.
 Proof.
-  intros H Hca Hkw. unfold cg_triples.
-  destruct (cg_spoc_read d sp ca H Hca) as (d1 & E1 & R1). rewrite E1.
+  intros H. unfold cg_triples.
+  destruct (cg_spoc_read d sp ca H) as (d1 & E1 & R1). rewrite E1.
   set (arg := match kw with Some a => Some a | None => regraph (eff_graph ca None) end).
-  assert (Hnf : no_foreign arg = true).
-  { unfold arg. destruct kw; auto. unfold regraph. destruct (eff_graph ca None); reflexivity. }
-  destruct (cg_graph_read d1 sp arg R1 Hnf) as (d2 & E2 & R2). rewrite E2.
+  destruct (cg_graph_read d1 sp arg R1) as (d2 & E2 & R2). rewrite E2.
   exists d2. split; auto. f_equal.
   rewrite map_fst_st_triples, (st_match_R _ sp _ _ R2).
   assert (Hg : option_map arg_name arg = eff_graph ca kw).
@@ -374,13 +351,12 @@ Proof.
 Qed.
 
 Lemma cg_contains_spec d sp p ca du :
-  R d sp -> ca_foreign ca = false ->
+  R d sp ->
   exists d1, cg_contains d p ca du = (d1, negb (is_nil (sp_triples sp p (eff_graph ca None) du))) /\ R d1 sp.
 Proof.
-  intros H Hca. unfold cg_contains.
-  destruct (cg_spoc_read d sp ca H Hca) as (d1 & E1 & R1). rewrite E1.
-  destruct (cg_triples_spec d1 sp p CTriple (regraph (eff_graph ca None)) du R1 eq_refl) as (d2 & E2 & R2).
-  { unfold regraph. destruct (eff_graph ca None); reflexivity. }
+  intros H. unfold cg_contains.
+  destruct (cg_spoc_read d sp ca H) as (d1 & E1 & R1). rewrite E1.
+  destruct (cg_triples_spec d1 sp p CTriple (regraph (eff_graph ca None)) du R1) as (d2 & E2 & R2).
   rewrite E2. exists d2. split; auto. do 3 f_equal.
   unfold eff_graph, regraph. destruct ca as [|[a|]]; reflexivity.
 Qed.
@@ -414,11 +390,11 @@ Proof.
 Qed.
 
 Lemma cg_quads_spec d sp p ca :
-  R d sp -> ca_foreign ca = false -> leaks sp (OQuads p ca) = false ->
+  R d sp -> leaks sp (OQuads p ca) = false ->
   exists d1 l, cg_quads d p ca = (d1, l) /\ R d1 sp /\ qenum l (sp_quads sp p ca) = true.
 Proof.
-  intros H Hca Hleak. unfold cg_quads.
-  destruct (cg_spoc_read d sp ca H Hca) as (d1 & E1 & R1). rewrite E1.
+  intros H Hleak. unfold cg_quads.
+  destruct (cg_spoc_read d sp ca H) as (d1 & E1 & R1). rewrite E1.
   exists d1. eexists. split; [reflexivity|]. split; auto.
   fold (quads_of (st d1) p (eff_graph ca None)).
   pose proof R1 as (Eq & Eo & _ & Hn & _).
@@ -462,7 +438,7 @@ Lemma R_addN l : forall d sp, R d sp ->
 Proof.
   induction l as [|[t a] r IH]; intros d sp H; [exact H|].
   unfold cg_addN in *. cbn [fold_left fst snd].
-  destruct (cg_graph_spec d sp (Some a) H) as (d1 & E & HR). rewrite E. cbn [option_map].
+  destruct (cg_graph_spec d sp (Some a) true H) as (d1 & E & HR). rewrite E. cbn [option_map].
   apply IH. now apply R_add.
 Qed.
 
@@ -492,24 +468,24 @@ Proof.
 Qed.
 
 Lemma do_op_spec d sp o :
-  R d sp -> op_wf o = true -> leaks sp o = false ->
+  R d sp -> leaks sp o = false ->
   exists d1 r, do_op d o = (d1, r) /\ R d1 (sp_step sp o) /\ res_ok sp o r = true.
 Proof.
-  intros H Hwf Hleak.
+  intros H Hleak.
   destruct o as [t ca|l|p ca|oa|oa|c|p ca kw du|p ca|p ca du]; cbn [do_op sp_step].
   - (* add *)
-    unfold cg_add. destruct (cg_spoc_spec d sp ca true H) as (d1 & E & HR & Hs). rewrite E.
+    unfold cg_add. destruct (cg_spoc_spec d sp ca true H) as (d1 & E & HR). rewrite E.
     eexists; eexists; split; [reflexivity|]. split; [|reflexivity].
     destruct ca as [|[a|]]; cbn [sp_target spoc_ctx option_map fst] in *; now apply R_add.
   - eexists; eexists; split; [reflexivity|]. split; [now apply R_addN|reflexivity].
-  - (* remove *)
-    unfold cg_remove. destruct (cg_spoc_spec d sp ca false H) as (d1 & E & HR & Hs). rewrite E.
+  - (* remove: nothing is merged *)
+    unfold cg_remove. destruct (cg_spoc_spec d sp ca false H) as (d1 & E & HR). rewrite E.
     eexists; eexists; split; [reflexivity|]. split; [|reflexivity].
-    destruct ca as [|[a|]]; cbn [sp_target spoc_ctx option_map fst] in *; now apply R_remove.
+    rewrite spoc_ctx_false. now apply R_remove.
   - (* graph *)
     eexists; eexists; split; [reflexivity|]. split; [|reflexivity].
     destruct oa as [a|]; cbn [ds_graph].
-    + destruct (cg_graph_spec d sp (Some a) H) as (d1 & E & HR). rewrite E. cbn [option_map].
+    + destruct (cg_graph_spec d sp (Some a) true H) as (d1 & E & HR). rewrite E. cbn [option_map].
       apply (R_know d1 _ (arg_name a) HR).
     + pose proof H as (_ & _ & Hf & _). rewrite Hf.
       pose proof (R_know d sp (FRESH_BASE + sf sp) H) as (K1 & K2 & K3 & K4 & K5 & K6 & K7 & K8).
@@ -519,16 +495,12 @@ Proof.
     destruct oa as [a|]; cbn [ds_remove_graph]; auto. now apply R_remove_graph.
   - eexists; eexists; split; [reflexivity|]. split; [|reflexivity]. unfold cg_remove_context.
     apply (R_remove d sp pall (Some c) H).
-  - cbn [op_wf] in Hwf. apply andb_true_iff in Hwf. destruct Hwf as [W1 W2]. apply negb_true_iff in W1.
-    destruct (cg_triples_spec d sp p ca kw du H W1) as (d1 & E & HR).
-    { destruct kw; cbn [no_foreign] in *; auto. }
+  - destruct (cg_triples_spec d sp p ca kw du H) as (d1 & E & HR).
     rewrite E. eexists; eexists; split; [reflexivity|]. split; auto.
     cbn [res_ok]. apply tenum_refl, sp_triples_NoDup. apply H.
-  - cbn [op_wf] in Hwf. apply negb_true_iff in Hwf.
-    destruct (cg_quads_spec d sp p ca H Hwf Hleak) as (d1 & l & E & HR & Hq).
+  - destruct (cg_quads_spec d sp p ca H Hleak) as (d1 & l & E & HR & Hq).
     rewrite E. eexists; eexists; split; [reflexivity|]. split; auto.
-  - cbn [op_wf] in Hwf. apply negb_true_iff in Hwf.
-    destruct (cg_contains_spec d sp p ca du H Hwf) as (d1 & E & HR).
+  - destruct (cg_contains_spec d sp p ca du H) as (d1 & E & HR).
     rewrite E. eexists; eexists; split; [reflexivity|]. split; auto. cbn [res_ok]. apply Bool.eqb_reflx.
 Qed.
 
@@ -541,7 +513,7 @@ Lemma mem_probe_spec d sp names vocab :
 Proof.
   intros H. unfold mem_probe. induction names as [|g r IH]; cbn [flat_map]; auto. f_equal; auto.
   apply map_ext. intros t.
-  destruct (cg_contains_spec d sp (pat_of t) (CQuad (Some (GId g))) false H eq_refl) as (d1 & E & _).
+  destruct (cg_contains_spec d sp (pat_of t) (CQuad (Some (GId g))) false H) as (d1 & E & _).
   rewrite E. cbn [snd eff_graph arg_name sp_triples andb]. unfold sp_graph. now rewrite is_nil_q_triples, negb_involutive.
 Qed.
 
@@ -549,20 +521,20 @@ Qed.
 Lemma is_ds_touch d : is_ds (touch_default d) = is_ds d.
 Proof. unfold touch_default. destruct (is_ds d) eqn:E; auto. destruct (memb N.eqb 0 (known (st d))); auto. Qed.
 
-Lemma is_ds_cg_graph d oa : is_ds (fst (cg_graph d oa)) = is_ds d.
-Proof. destruct oa as [[c|c|c ts]|]; cbn [cg_graph fst set_st is_ds]; auto using is_ds_touch. Qed.
+Lemma is_ds_cg_graph d oa copy : is_ds (fst (cg_graph d oa copy)) = is_ds d.
+Proof. destruct oa as [[c|c|c ts]|], copy; cbn [cg_graph fst set_st is_ds]; auto using is_ds_touch. Qed.
 
 Lemma is_ds_cg_spoc d ca b : is_ds (fst (cg_spoc d ca b)) = is_ds d.
 Proof.
   destruct ca as [|oa]; cbn [cg_spoc fst]; auto.
-  pose proof (is_ds_cg_graph d oa) as H. destruct (cg_graph d oa) as [d1 c]. exact H.
+  pose proof (is_ds_cg_graph d oa b) as H. destruct (cg_graph d oa b) as [d1 c]. exact H.
 Qed.
 
 Lemma is_ds_cg_triples d p ca kw du : is_ds (fst (cg_triples d p ca kw du)) = is_ds d.
 Proof.
   unfold cg_triples. pose proof (is_ds_cg_spoc d ca false) as H1.
   destruct (cg_spoc d ca false) as [d1 c]. cbn [fst] in H1.
-  match goal with |- context [cg_graph d1 ?a] => pose proof (is_ds_cg_graph d1 a) as H2; destruct (cg_graph d1 a) as [d2 x] end.
+  match goal with |- context [cg_graph d1 ?a false] => pose proof (is_ds_cg_graph d1 a false) as H2; destruct (cg_graph d1 a false) as [d2 x] end.
   cbn [fst] in *. congruence.
 Qed.
 
@@ -586,7 +558,7 @@ Proof. unfold ds_graphs. destruct (is_ds d) eqn:E; auto. destruct (memb N.eqb 0 
 Lemma is_ds_cg_addN l : forall d, is_ds (cg_addN d l) = is_ds d.
 Proof.
   induction l as [|x r IH]; intros d; auto. unfold cg_addN in *. cbn [fold_left]. rewrite IH.
-  pose proof (is_ds_cg_graph d (Some (snd x))) as H. destruct (cg_graph d (Some (snd x))) as [d1 c]. exact H.
+  pose proof (is_ds_cg_graph d (Some (snd x)) true) as H. destruct (cg_graph d (Some (snd x)) true) as [d1 c]. exact H.
 Qed.
 
 Lemma is_ds_do_op d o : is_ds (fst (do_op d o)) = is_ds d.
@@ -596,7 +568,7 @@ Proof.
   - apply is_ds_cg_addN.
   - unfold cg_remove. pose proof (is_ds_cg_spoc d ca false) as H. destruct (cg_spoc d ca false) as [d1 c]. exact H.
   - destruct oa as [a|]; cbn [ds_graph fst is_ds]; auto.
-    pose proof (is_ds_cg_graph d (Some a)) as H. destruct (cg_graph d (Some a)) as [d1 [c|]]; exact H.
+    pose proof (is_ds_cg_graph d (Some a) true) as H. destruct (cg_graph d (Some a) true) as [d1 [c|]]; exact H.
   - destruct oa as [a|]; reflexivity.
   - reflexivity.
   - pose proof (is_ds_cg_triples d p ca kw du) as H. destruct (cg_triples d p ca kw du). exact H.
@@ -610,7 +582,7 @@ Lemma snapshot_spec c d sp :
 Proof.
   intros H Hkind. unfold snapshot.
   pose proof (is_ds_cg_quads d pall CTriple) as K1.
-  destruct (cg_quads_spec d sp pall CTriple H eq_refl eq_refl) as (d1 & q & E1 & R1 & Q1). rewrite E1.
+  destruct (cg_quads_spec d sp pall CTriple H eq_refl) as (d1 & q & E1 & R1 & Q1). rewrite E1.
   rewrite E1 in K1. cbn [fst] in K1. pose proof (is_ds_ds_graphs d1) as K2.
   assert (Hg : exists d2 gs, ds_graphs d1 = (d2, gs) /\ R d2 sp /\
             (if is_ds d1 then cenum gs (sk sp) else nodupb N.eqb gs && cseteqb (sadd N.eqb 0 gs) (sk sp)) = true).
@@ -630,9 +602,9 @@ Proof.
   destruct Hg as (d2 & gs & E2 & R2 & G2). rewrite E2.
   rewrite E2 in K2. cbn [fst] in K2.
   pose proof (is_ds_cg_triples d2 pall CTriple None true) as K3.
-  destruct (cg_triples_spec d2 sp pall CTriple None true R2 eq_refl eq_refl) as (d3 & E3 & R3). rewrite E3.
+  destruct (cg_triples_spec d2 sp pall CTriple None true R2) as (d3 & E3 & R3). rewrite E3.
   rewrite E3 in K3. cbn [fst] in K3. pose proof (is_ds_cg_triples d3 pall CTriple None false) as K4.
-  destruct (cg_triples_spec d3 sp pall CTriple None false R3 eq_refl eq_refl) as (d4 & E4 & R4). rewrite E4.
+  destruct (cg_triples_spec d3 sp pall CTriple None false R3) as (d4 & E4 & R4). rewrite E4.
   rewrite E4 in K4. cbn [fst] in K4.
   eexists; eexists; split; [reflexivity|]. split; auto. split; [congruence|].
   pose proof R4 as (Eq & Eo & _ & Hn & _).
@@ -663,21 +635,20 @@ Qed.
 (* the model satisfies the checker on every well-formed history outside the
    two known-finding regions *)
 Theorem spec_run_model c : forall ops d sp,
-  R d sp -> is_ds d = c_ds c -> forallb op_wf ops = true -> leak_run sp ops = false ->
+  R d sp -> is_ds d = c_ds c -> leak_run sp ops = false ->
   spec_run c sp ops (run c d ops) = true.
 Proof.
-  induction ops as [|o r IH]; intros d sp H Hk Hwf Hl; [reflexivity|].
-  cbn [forallb leak_run] in *. apply andb_true_iff in Hwf. destruct Hwf as [W1 W2].
-  apply orb_false_iff in Hl. destruct Hl as [L1 L2].
-  destruct (do_op_spec d sp o H W1 L1) as (d1 & rs & E & R1 & Ok1).
+  induction ops as [|o r IH]; intros d sp H Hk Hl; [reflexivity|].
+  cbn [leak_run] in *. apply orb_false_iff in Hl. destruct Hl as [L1 L2].
+  destruct (do_op_spec d sp o H L1) as (d1 & rs & E & R1 & Ok1).
   pose proof (is_ds_do_op d o) as K1. rewrite E in K1. cbn [fst] in K1.
   destruct (snapshot_spec c d1 _ R1 (eq_trans K1 Hk)) as (d2 & sn & E2 & R2 & K2 & Ok2).
   cbn [run]. rewrite E, E2. cbn [spec_run]. rewrite Ok1, Ok2. cbn [andb]. apply IH; auto.
 Qed.
 
-Theorem spec_ok_model c : wf c -> kf c = 0 -> spec_ok c (model_obs c) = true.
+Theorem spec_ok_model c : kf c = 0 -> spec_ok c (model_obs c) = true.
 Proof.
-  unfold wf, kf, spec_ok, model_obs. intros Hwf Hkf.
+  unfold kf, spec_ok, model_obs. intros Hkf.
   destruct (leak_run sp_init (c_ops c)) eqn:E2; [discriminate|].
   apply spec_run_model; auto using R_init.
 Qed.
@@ -695,31 +666,30 @@ Proof. unfold touch_default. destruct (is_ds d); auto. destruct (memb N.eqb 0 (k
 Lemma iadd_quads c ts : forall s, quads (iadd s c ts) = fold_left (fun q t => q_add (t, c) q) ts (quads s).
 Proof. induction ts as [|t r IH]; intros s; auto. unfold iadd in *. cbn [fold_left]. now rewrite IH. Qed.
 
-Lemma holds_cg_graph d oa g t :
-  holds (fst (cg_graph d oa)) g t <->
-  holds d g t \/ (exists a, oa = Some a /\ g = arg_name a /\ In t (arg_content a)).
+Lemma holds_cg_graph d oa copy g t :
+  holds (fst (cg_graph d oa copy)) g t <->
+  holds d g t \/ (copy = true /\ exists a, oa = Some a /\ g = arg_name a /\ In t (arg_content a)).
 Proof.
   unfold holds. destruct oa as [[c|c|c ts]|]; cbn [cg_graph fst set_st st].
-  - split; auto. intros [H|(a & [= <-] & _ & [])]; auto.
-  - rewrite iadd_quads, fold_q_add_In, quads_touch. split.
-    + intros [H|(t' & H1 & [= -> ->])]; auto. left.
-      unfold graph_triples in H1. rewrite quads_touch in H1. apply in_q_triples in H1. tauto.
-    + intros [H|(a & [= <-] & _ & [])]; auto.
-  - rewrite iadd_quads, fold_q_add_In, quads_touch. split.
-    + intros [H|(t' & H1 & [= -> ->])]; auto. right. exists (GForeign c ts). auto.
-    + intros [H|(a & [= <-] & -> & H)]; auto. right. exists t. auto.
-  - split; auto. intros [H|(a & [=] & _)]; auto.
+  - split; auto. intros [H|(_ & a & [= <-] & _ & [])]; auto.
+  - rewrite quads_touch. split; auto. intros [H|(_ & a & [= <-] & _ & [])]; auto.
+  - destruct copy; cbn [fst set_st st].
+    + rewrite iadd_quads, fold_q_add_In, quads_touch. split.
+      * intros [H|(t' & H1 & [= -> ->])]; auto. right. split; auto. exists (GForeign c ts). auto.
+      * intros [H|(_ & a & [= <-] & -> & H)]; auto. right. exists t. auto.
+    + rewrite quads_touch. split; auto. intros [H|(Hc & _)]; auto. discriminate.
+  - split; auto. intros [H|(_ & a & [=] & _)]; auto.
 Qed.
 
 Lemma add_isolated d t a g t' :
   holds (cg_add d t (CQuad (Some a))) g t' <->
   holds d g t' \/ (g = arg_name a /\ (t' = t \/ In t' (arg_content a))).
 Proof.
-  unfold cg_add. cbn [cg_spoc]. pose proof (holds_cg_graph d (Some a) g t') as Hg.
-  assert (Hc : snd (cg_graph d (Some a)) = Some (arg_name a)) by (destruct a; reflexivity).
-  destruct (cg_graph d (Some a)) as [d1 c]. cbn [fst snd] in *. subst c.
+  unfold cg_add. cbn [cg_spoc]. pose proof (holds_cg_graph d (Some a) true g t') as Hg.
+  assert (Hc : snd (cg_graph d (Some a) true) = Some (arg_name a)) by (destruct a; reflexivity).
+  destruct (cg_graph d (Some a) true) as [d1 c]. cbn [fst snd] in *. subst c.
   unfold holds in *. cbn [set_st st st_add quads]. rewrite q_add_In, Hg. split.
-  - intros [[= -> ->]|[H|(a' & [= <-] & H1 & H2)]]; auto.
+  - intros [[= -> ->]|[H|(_ & a' & [= <-] & H1 & H2)]]; auto.
   - intros [H|[-> [->|H]]]; auto. right. right. eauto.
 Qed.
 
@@ -781,35 +751,34 @@ Proof.
 Qed.
 
 (* a read restricted to a graph answers from that graph only *)
-Lemma quads_cg_graph_nf d oa : no_foreign oa = true -> quads (st (fst (cg_graph d oa))) = quads (st d).
-Proof.
-  intros Hnf. destruct oa as [[c|c|c ts]|]; cbn [cg_graph fst set_st st]; try reflexivity; [|discriminate].
-  rewrite iadd_quads, quads_touch. apply fold_q_add_noop. intros t Ht.
-  unfold graph_triples in Ht. rewrite quads_touch in Ht. apply in_q_triples in Ht. tauto.
-Qed.
+Lemma quads_cg_graph_read d oa : quads (st (fst (cg_graph d oa false))) = quads (st d).
+Proof. destruct oa as [[c|c|c ts]|]; cbn [cg_graph fst]; auto using quads_touch. Qed.
 
-Lemma snd_cg_graph d oa : snd (cg_graph d oa) = option_map arg_name oa.
+Lemma snd_cg_graph d oa copy : snd (cg_graph d oa copy) = option_map arg_name oa.
 Proof. destruct oa as [[c|c|c ts]|]; reflexivity. Qed.
 
+Lemma quads_cg_spoc_read d ca : quads (st (fst (cg_spoc d ca false))) = quads (st d).
+Proof.
+  destruct ca as [|oa]; cbn [cg_spoc fst]; auto. pose proof (quads_cg_graph_read d oa) as Hq.
+  destruct (cg_graph d oa false) as [d1 c]. exact Hq.
+Qed.
+
+Lemma snd_cg_spoc_read d ca : snd (cg_spoc d ca false) = eff_graph ca None.
+Proof.
+  destruct ca as [|oa]; cbn [cg_spoc snd]; auto. pose proof (snd_cg_graph d oa false) as Hs.
+  destruct (cg_graph d oa false) as [d1 c]. cbn [snd] in *. subst c. destruct oa; reflexivity.
+Qed.
+
 Lemma no_fallback d p ca kw du g :
-  ca_foreign ca = false -> no_foreign kw = true -> eff_graph ca kw = Some g -> (du = false \/ g <> 0) ->
+  eff_graph ca kw = Some g -> (du = false \/ g <> 0) ->
   forall t, In t (snd (cg_triples d p ca kw du)) <-> holds d g t /\ matches p t = true.
 Proof.
-  intros Hca Hkw Hg Hdu t. unfold cg_triples.
-  assert (H1 : quads (st (fst (cg_spoc d ca false))) = quads (st d)).
-  { destruct ca as [|oa]; cbn [cg_spoc fst]; auto.
-    assert (Hq : quads (st (fst (cg_graph d oa))) = quads (st d)).
-    { apply quads_cg_graph_nf. destruct oa as [a|]; cbn in *; auto. now rewrite Hca. }
-    destruct (cg_graph d oa) as [d1 c]. exact Hq. }
-  assert (H1' : snd (cg_spoc d ca false) = eff_graph ca None).
-  { destruct ca as [|oa]; cbn [cg_spoc snd]; auto. pose proof (snd_cg_graph d oa) as Hs.
-    destruct (cg_graph d oa) as [d1 c]. cbn [snd] in *. subst c. destruct oa; reflexivity. }
+  intros Hg Hdu t. unfold cg_triples.
+  pose proof (quads_cg_spoc_read d ca) as H1. pose proof (snd_cg_spoc_read d ca) as H1'.
   destruct (cg_spoc d ca false) as [d1 c]. cbn [fst snd] in *. subst c.
   set (arg := match kw with Some a => Some a | None => regraph (eff_graph ca None) end).
-  assert (Hnf : no_foreign arg = true).
-  { unfold arg. destruct kw; auto. unfold regraph. destruct (eff_graph ca None); reflexivity. }
-  pose proof (quads_cg_graph_nf d1 arg Hnf) as H2. pose proof (snd_cg_graph d1 arg) as H2'.
-  destruct (cg_graph d1 arg) as [d2 ctx]. cbn [fst snd] in *. subst ctx.
+  pose proof (quads_cg_graph_read d1 arg) as H2. pose proof (snd_cg_graph d1 arg false) as H2'.
+  destruct (cg_graph d1 arg false) as [d2 ctx]. cbn [fst snd] in *. subst ctx.
   assert (Ha : option_map arg_name arg = Some g).
   { rewrite <- Hg. unfold arg, eff_graph. destruct kw; auto. destruct ca as [|[a|]]; reflexivity. }
   rewrite Ha, map_fst_st_triples.
@@ -820,29 +789,44 @@ Proof.
 Qed.
 
 Lemma no_fallback_empty d p ca kw du g :
-  ca_foreign ca = false -> no_foreign kw = true -> eff_graph ca kw = Some g -> (du = false \/ g <> 0) ->
+  eff_graph ca kw = Some g -> (du = false \/ g <> 0) ->
   (forall t, ~ holds d g t) -> snd (cg_triples d p ca kw du) = [].
 Proof.
-  intros Hca Hkw Hg Hdu He.
+  intros Hg Hdu He.
   destruct (snd (cg_triples d p ca kw du)) as [|t r] eqn:E; auto. exfalso.
-  apply (He t). apply (no_fallback d p ca kw du g Hca Hkw Hg Hdu t). rewrite E. simpl. auto.
+  apply (He t). apply (no_fallback d p ca kw du g Hg Hdu t). rewrite E. simpl. auto.
 Qed.
 
 Lemma contains_exact d t a du :
-  foreign a = false -> (du = false \/ arg_name a <> 0) ->
+  (du = false \/ arg_name a <> 0) ->
   (snd (cg_contains d (pat_of t) (CQuad (Some a)) du) = true <-> holds d (arg_name a) t).
 Proof.
-  intros Hf Hdu. unfold cg_contains. cbn [cg_spoc].
-  pose proof (quads_cg_graph_nf d (Some a)) as H1. pose proof (snd_cg_graph d (Some a)) as H1'.
-  destruct (cg_graph d (Some a)) as [d1 c]. cbn [fst snd option_map] in *. subst c.
+  intros Hdu. unfold cg_contains.
+  pose proof (quads_cg_spoc_read d (CQuad (Some a))) as H1. pose proof (snd_cg_spoc_read d (CQuad (Some a))) as H1'.
+  destruct (cg_spoc d (CQuad (Some a)) false) as [d1 c]. cbn [fst snd eff_graph] in *. subst c.
   cbn [regraph option_map].
-  pose proof (no_fallback d1 (pat_of t) CTriple (Some (GView (arg_name a))) du (arg_name a) eq_refl eq_refl eq_refl Hdu) as Hn.
+  pose proof (no_fallback d1 (pat_of t) CTriple (Some (GView (arg_name a))) du (arg_name a) eq_refl Hdu) as Hn.
   destruct (cg_triples d1 (pat_of t) CTriple (Some (GView (arg_name a))) du) as [d2 l]. cbn [snd] in *.
-  unfold holds in *. rewrite H1 in Hn by (cbn; now rewrite Hf). split.
+  unfold holds in *. rewrite H1 in Hn. split.
   - destruct l as [|x r]; [discriminate|]. intros _. destruct (Hn x) as [Hx _].
     destruct (Hx (or_introl eq_refl)) as [Hin Hm]. apply matches_pat_of in Hm. now subst.
   - intros Hin. destruct l as [|x r]; auto. exfalso. apply (Hn t). split; auto. now apply matches_pat_of.
 Qed.
+
+(* reads never write quads, whatever they are handed (F19 repaired) *)
+Lemma triples_no_write d p ca kw du : quads (st (fst (cg_triples d p ca kw du))) = quads (st d).
+Proof.
+  unfold cg_triples. pose proof (quads_cg_spoc_read d ca) as H1.
+  destruct (cg_spoc d ca false) as [d1 c]. cbn [fst] in H1.
+  match goal with |- context [cg_graph d1 ?a false] => pose proof (quads_cg_graph_read d1 a) as H2; destruct (cg_graph d1 a false) as [d2 x] end.
+  cbn [fst] in *. congruence.
+Qed.
+
+(* the historical _graph (finding F19, repaired) copied a foreign Graph on every path *)
+Lemma hist_graph_copies_refuted :
+  exists d c ts, quads (st (fst (cg_graph_hist d (Some (GForeign c ts))))) <> quads (st d)
+                 /\ quads (st (fst (cg_graph d (Some (GForeign c ts)) false))) = quads (st d).
+Proof. exists (ds_init true), 1, [(12, 4, 12)]. split; [vm_compute; discriminate|reflexivity]. Qed.
 
 (* the historical expression [context or c] does fall back (finding F1, repaired) *)
 Lemma hist_context_or_c_refuted :
@@ -858,7 +842,7 @@ Definition w_f17 : case :=
   {| c_ds := true; c_names := [0; 1; 2]; c_vocab := [(1, 3, 2)];
      c_ops := [OAdd (1, 3, 2) (CQuad (Some (GId 1))); OAdd (1, 3, 2) (CQuad (Some (GId 2)));
                OQuads pall (CQuad (Some (GId 1)))] |}.
-Lemma quads_restricted_refuted : exists c, wf c /\ kf c = 1 /\ spec_ok c (model_obs c) = false.
+Lemma quads_restricted_refuted : exists c, kf c = 1 /\ spec_ok c (model_obs c) = false.
 Proof. exists w_f17. repeat split; vm_compute; reflexivity. Qed.
 
 (* the historical _spoc (finding F18, repaired) filed a quad whose graph is None
@@ -926,7 +910,6 @@ Proof.
   - destruct ca as [|[a|]]; cbn [sp_target sp_add sk]; apply N_sadd_In; auto.
   - revert sp H. induction l as [|x l IHl]; intros sp H; auto. cbn [fold_left]. apply IHl.
     cbn [sp_add sk]. apply N_sadd_In; auto.
-  - destruct ca as [|[a|]]; cbn [sp_target sk]; auto.
   - destruct oa as [a|]; cbn [sk]; apply N_sadd_In; auto.
   - destruct oa as [a|]; cbn [sk]; auto. destruct (N.eqb_spec (arg_name a) 0); auto.
     apply N_srem_In. split; auto.
